@@ -90,6 +90,8 @@ func ghostSort(ty string) (string, error) {
 		return ArraySort(SInt, SReal), nil
 	case "string":
 		return SString, nil
+	case "map[string]int":
+		return ArraySort(SString, SInt), nil
 	case "map[string]bool":
 		return ArraySort(SString, SBool), nil
 	case "map[string]string":
@@ -679,6 +681,27 @@ func (se *specEnv) evalCall(n *SCall) (specVal, error) {
 	case "typeis":
 		// typeis(x, "pkg.Type") for interface values: dynamic type test by registered name
 		return specVal{}, fmt.Errorf("typeis not supported")
+	case "isBound":
+		// isBound(f, recv, "method"): f is the method value recv.method
+		if len(n.Args) != 3 {
+			return specVal{}, fmt.Errorf("isBound(f, recv, \"method\")")
+		}
+		fv, err := se.eval(n.Args[0])
+		if err != nil {
+			return specVal{}, err
+		}
+		rv, err := se.eval(n.Args[1])
+		if err != nil {
+			return specVal{}, err
+		}
+		ms, ok := n.Args[2].(*SStrLit)
+		if !ok || rv.typ == nil {
+			return specVal{}, fmt.Errorf("isBound: third argument must be a method name and the receiver must be typed")
+		}
+		full := "(" + types.TypeString(rv.typ, nil) + ")." + ms.Val + "$bound"
+		e.sc.DeclareFun("fn_code", []string{SInt}, SInt)
+		e.sc.DeclareFun("fn_fv0_Int", []string{SInt}, SInt)
+		return specVal{t: And(Not(Eq(fv.t, IntLit(0))), Eq(App(SInt, "fn_code", fv.t), e.prog.fnTermByName(full)), Eq(App(SInt, "fn_fv0_Int", fv.t), rv.t))}, nil
 	case "errorsIs":
 		as, err := args()
 		if err != nil {
